@@ -1,0 +1,235 @@
+//! Verification hooks. Compiled only with the `verif` cargo feature, which is
+//! off by default; nothing in here is reachable from a default build.
+//!
+//! The hooks are thin: they expose existing internal operations and state to an
+//! external monitor, and forward named yield points to a callback the monitor
+//! installs. They contain no logic of their own.
+
+use std::sync::atomic::{AtomicBool, Ordering};
+use std::sync::{Arc, RwLock};
+
+use crate::compaction::leveled::Strategy;
+use crate::compaction::CompactionStrategy;
+use crate::lsm::CompactionOperations;
+use crate::{Options, Result, Transaction, Tree};
+
+pub use crate::clock::LogicalClock;
+
+// ---------------------------------------------------------------------------
+// H3: named yield points
+// ---------------------------------------------------------------------------
+
+type PointHook = Arc<dyn Fn(&'static str) + Send + Sync>;
+
+static POINT_HOOK: RwLock<Option<PointHook>> = RwLock::new(None);
+static POINT_HOOK_SET: AtomicBool = AtomicBool::new(false);
+
+/// Installs (or clears) the process-wide callback invoked at every yield point.
+pub fn set_point_hook(hook: Option<PointHook>) {
+	let mut g = POINT_HOOK.write().unwrap_or_else(|e| e.into_inner());
+	POINT_HOOK_SET.store(hook.is_some(), Ordering::SeqCst);
+	*g = hook;
+}
+
+/// A named yield point. No-op unless a hook is installed.
+#[inline]
+pub fn point(name: &'static str) {
+	if !POINT_HOOK_SET.load(Ordering::Relaxed) {
+		return;
+	}
+	let hook = POINT_HOOK.read().unwrap_or_else(|e| e.into_inner()).clone();
+	if let Some(h) = hook {
+		h(name);
+	}
+}
+
+// ---------------------------------------------------------------------------
+// Manual background mode: wake-ups of the background tasks become no-ops so a
+// single driver thread decides when flushes and compactions happen.
+// ---------------------------------------------------------------------------
+
+static MANUAL_BACKGROUND: AtomicBool = AtomicBool::new(false);
+
+pub fn set_manual_background(on: bool) {
+	MANUAL_BACKGROUND.store(on, Ordering::SeqCst);
+}
+
+#[inline]
+pub(crate) fn manual_background() -> bool {
+	MANUAL_BACKGROUND.load(Ordering::Relaxed)
+}
+
+// ---------------------------------------------------------------------------
+// H1 / H2: placement operations and state readout
+// ---------------------------------------------------------------------------
+
+/// One SSTable as seen in the live manifest.
+#[derive(Debug, Clone)]
+pub struct VerifTable {
+	pub id: u64,
+	pub level: u8,
+	pub smallest_user_key: Option<Vec<u8>>,
+	pub largest_user_key: Option<Vec<u8>>,
+	pub smallest_seq: Option<u64>,
+	pub largest_seq: Option<u64>,
+	pub num_entries: u64,
+	pub num_deletions: u64,
+	pub oldest_vlog_file_id: u64,
+	pub file_size: u64,
+}
+
+/// State of the store at a quiescent point.
+#[derive(Debug, Clone)]
+pub struct VerifLayout {
+	pub tables: Vec<VerifTable>,
+	pub level_count: usize,
+	pub immutables: usize,
+	pub active_empty: bool,
+	pub log_number: u64,
+	pub last_sequence: u64,
+	pub active_wal: u64,
+	pub memtable_task_running: bool,
+	pub level_task_running: bool,
+}
+
+impl Tree {
+	/// Rotates the active memtable into the immutable queue (no flush).
+	pub fn verif_rotate(&self) -> Result<()> {
+		self.core.inner.rotate_memtable()
+	}
+
+	/// Flushes the oldest immutable memtable. Returns whether one was flushed.
+	pub fn verif_flush_one(&self) -> Result<bool> {
+		let had = self.core.inner.has_pending_immutables();
+		self.core.inner.compact_memtable()?;
+		self.core.write_stall.signal_work_done();
+		Ok(had)
+	}
+
+	/// Rotates the active memtable and flushes every immutable memtable
+	/// (the body of the `cfg(test)` `Tree::flush`).
+	pub fn verif_flush(&self) -> Result<()> {
+		{
+			let active = self.core.inner.active_memtable.read()?;
+			if !active.is_empty() {
+				drop(active);
+				self.core.inner.rotate_memtable()?;
+			}
+		}
+		self.core.inner.flush_all_immutables_sync()?;
+		self.core.write_stall.signal_work_done();
+		Ok(())
+	}
+
+	/// Runs one round of the production (leveled) compaction strategy.
+	/// Returns true when the table set changed.
+	pub fn verif_compact_once(&self) -> Result<bool> {
+		let before = self.verif_table_ids();
+		let strategy: Arc<dyn CompactionStrategy> =
+			Arc::new(Strategy::from_options(Arc::clone(&self.core.inner.opts)));
+		self.core.inner.compact(strategy)?;
+		self.core.write_stall.signal_work_done();
+		Ok(before != self.verif_table_ids())
+	}
+
+	fn verif_table_ids(&self) -> Vec<(u8, u64)> {
+		let mut v = Vec::new();
+		if let Ok(m) = self.core.inner.level_manifest.read() {
+			for (li, level) in m.levels.get_levels().iter().enumerate() {
+				for t in &level.tables {
+					v.push((li as u8, t.id));
+				}
+			}
+		}
+		v
+	}
+
+	pub fn verif_layout(&self) -> Result<VerifLayout> {
+		let (memtable_task_running, level_task_running) = {
+			let g = self.core.task_manager.lock()?;
+			match g.as_ref() {
+				Some(tm) => tm.verif_running(),
+				None => (false, false),
+			}
+		};
+		let active_empty = self.core.inner.active_memtable.read()?.is_empty();
+		let immutables = self.core.inner.immutable_count();
+		let active_wal = self.core.inner.wal.read().get_active_log_number();
+		let m = self.core.inner.level_manifest.read()?;
+		let mut tables = Vec::new();
+		for (li, level) in m.levels.get_levels().iter().enumerate() {
+			for t in &level.tables {
+				tables.push(VerifTable {
+					id: t.id,
+					level: li as u8,
+					smallest_user_key: t.meta.smallest_point.as_ref().map(|k| k.user_key.clone()),
+					largest_user_key: t.meta.largest_point.as_ref().map(|k| k.user_key.clone()),
+					smallest_seq: t.meta.smallest_seq_num,
+					largest_seq: t.meta.largest_seq_num,
+					num_entries: t.meta.properties.num_entries,
+					num_deletions: t.meta.properties.num_deletions,
+					oldest_vlog_file_id: t.meta.properties.oldest_vlog_file_id,
+					file_size: t.file_size,
+				});
+			}
+		}
+		Ok(VerifLayout {
+			tables,
+			level_count: m.levels.get_levels().len(),
+			immutables,
+			active_empty,
+			log_number: m.get_log_number(),
+			last_sequence: m.get_last_sequence(),
+			active_wal,
+			memtable_task_running,
+			level_task_running,
+		})
+	}
+
+	/// Highest published commit sequence number.
+	pub fn verif_visible_seq(&self) -> u64 {
+		self.core.seq_num()
+	}
+
+	/// Contents of the snapshot registry consulted by compaction.
+	pub fn verif_snapshot_seqs(&self) -> Vec<u64> {
+		self.core.inner.snapshot_tracker.get_all_snapshots()
+	}
+
+	/// The GC watermark the commit oracle would be given right now.
+	pub fn verif_oldest_active(&self) -> u64 {
+		self.core.inner.oldest_active_start_seq()
+	}
+
+	/// `(kept_since, len)` of the commit oracle.
+	pub fn verif_oracle(&self) -> (u64, usize) {
+		self.core.commit_pipeline.verif_oracle_state()
+	}
+
+	/// Wakes both background tasks (ignores manual mode).
+	pub fn verif_wake_background(&self) {
+		if let Ok(g) = self.core.task_manager.lock() {
+			if let Some(tm) = g.as_ref() {
+				tm.verif_force_wake();
+			}
+		}
+	}
+}
+
+impl Transaction {
+	/// The visibility horizon this transaction captured at begin.
+	pub fn verif_start_seq(&self) -> u64 {
+		self.start_seq_num
+	}
+}
+
+// ---------------------------------------------------------------------------
+// H4: settable logical clock
+// ---------------------------------------------------------------------------
+
+impl Options {
+	pub fn verif_with_clock(mut self, clock: Arc<dyn LogicalClock>) -> Self {
+		self.clock = clock;
+		self
+	}
+}
